@@ -162,6 +162,28 @@ func (g *Syn) leaf() *ir.Node {
 		return ir.N(ir.Null, "")
 	default:
 		if g.Tpl {
+			if g.MultiTpl && r.Intn(5, "tplcluster") == 0 {
+				// several backtick strings in one expression (so that they meet on
+				// one output line), the last one spanning lines with white space in
+				// front of its line breaks
+				var kids []*ir.Node
+				for i, n := 0, 2+r.Intn(3, "nclust"); i < n; i++ {
+					kids = append(kids, r.TplNode(r.Intn(3, "clmulti") == 0))
+				}
+				tail := []string{"c   \nd", "x \t\n\n  y  \nz", "  \n", "\t\n\t"}[r.Intn(4, "cltail")]
+				kids = append(kids, ir.N(ir.Tpl, tail))
+				switch r.Intn(3, "clform") {
+				case 0:
+					return ir.N(ir.Call, "", append([]*ir.Node{ir.N(ir.Ident, r.Ident())}, kids...)...)
+				case 1:
+					return ir.N(ir.Array, "", kids...)
+				}
+				e := kids[0]
+				for _, k := range kids[1:] {
+					e = ir.N(ir.Binary, "+", e, k)
+				}
+				return e
+			}
 			return r.TplNode(g.MultiTpl)
 		}
 		return ir.N(ir.Ident, r.Ident())
